@@ -275,22 +275,8 @@ def s_ioerr(F, R):
                     R.fail("S-ioerr", key + "/discarded", "%s does not propagate the result of %s (%s)" % (f["root"], d, first.get("k")), where=loc(x))
     R.floor("S-ioerr", "io::Result call sites", n, 14)
     R.floor("S-ioerr", "kind-preserving map_err closures", nmap, 3)
-    # poll_read arms
-    from r_tables import poll_fn_id
-    pb = nbody(F, poll_fn_id(F))
-    k = 0
-    for x in walk_all(pb):
-        if x.get("k") == "Match" and strip(x["scrut"]).get("k") == "Call" and strip(x["scrut"])["fn"].get("name") == "poll_read":
-            k += 1
-            got = False
-            for arm in x["arms"]:
-                s = pp_pat(arm["pat"])
-                if s.startswith("Poll::Ready(Result::Err("):
-                    ev = s[len("Poll::Ready(Result::Err("):-2]
-                    body = pp(unblock(arm["body"]))
-                    got = body == "return Poll::Ready{0: Result::Err{0: <T as core::convert::Into<U>>::into(%s)}}" % ev
-            R.check(got, "S-ioerr", "poll/poll_read-%d" % k, "poll does not return a transport error as Err(err.into())", where=loc(x))
-    R.floor("S-ioerr", "poll_read matches", k, 2)
+    # the poll decoder's poll_read results are decided by the evaluated transfer functions P-header / P-body (transport error,
+    # Pending and zero-length read cases), not by the shape of its match arms
 
 
 def _is_tail_of_fn(par, x, b):
@@ -406,55 +392,8 @@ def h_noswallow(F, R):
     """Every `map_err` in the crate is one of: (a) kind-preserving I/O mapping, (b) a closure ignoring the
     error of a *pure* call (from_utf8, QoS::from_u8), (c) the InvalidTopicName -> InvalidResponseTopic remap,
     which matches exactly that variant and passes everything else through unchanged."""
-    n = 0
-    cats = {"io": 0, "pure": 0, "remap": 0}
-    for fid, f, b in all_bodies(F):
-        for x in walk_all(b):
-            if x.get("k") != "Call" or x["fn"].get("name") != "map_err" or not (x["fn"].get("def") or "").startswith("core::result::Result"):
-                continue
-            n += 1
-            recv, clo = x["args"][0], x["args"][1]
-            key = "%s/%d" % (f["root"], n)
-            if _is_io_from_ref(clo):
-                cats["io"] += 1
-                R.ok("H-noswallow", key, "the crate's From<io::Error> conversion")
-                continue
-            if clo.get("k") != "Closure":
-                R.fail("H-noswallow", key, "map_err with a non-closure %s" % pp(clo)[:60], where=loc(x))
-                continue
-            cf = F.fns[clo["def"]]
-            cb = unblock(_closure_body(F, clo["def"]))
-            ok, _d = _kind_preserving_closure(F, clo["def"])
-            if ok:
-                cats["io"] += 1
-                R.ok("H-noswallow", key, "kind-preserving")
-                continue
-            has_await = any(y.get("k") == "Await" for y in walk_all(recv))
-            params = [p["pat"] for p in cf["thir"]["params"] if p.get("pat")]
-            ignores = bool(params) and params[-1].get("k") == "Wild"
-            if ignores and not has_await:
-                cats["pure"] += 1
-                callee = strip(recv)
-                R.ok("H-noswallow", key, "error of pure call %s replaced" % (callee["fn"].get("def") if callee.get("k") == "Call" else "?"))
-                continue
-            if cb.get("k") == "Match":
-                # the remap: exactly Common(InvalidTopicName(_)) => InvalidResponseTopic ; err => err
-                arms = cb["arms"]
-                ok2 = len(arms) == 2
-                if ok2:
-                    p0 = pp_pat(arms[0]["pat"])
-                    b0 = pp(unblock(arms[0]["body"]))
-                    p1 = arms[1]["pat"]
-                    b1 = pp(unblock(arms[1]["body"]))
-                    ok2 = p0 == "ErrorV5::Common(Error::InvalidTopicName(_))" and b0 == "ErrorV5::InvalidResponseTopic{}" \
-                        and p1.get("k") == "Binding" and b1 == p1.get("name") and pp(strip(cb["scrut"])) == params[-1].get("name")
-                cats["remap"] += 1
-                R.check(ok2, "H-noswallow", key + "/remap",
-                        "%s: an error-remapping closure may turn an I/O (EOF) error into a protocol error: %s" % (f["root"], pp(cb)[:200]), where=loc(x))
-                continue
-            R.fail("H-noswallow", key + "/unknown", "%s: map_err closure %s on a fallible read discards or relabels the error" % (f["root"], pp(cb)[:120]), where=loc(x))
-    R.floor("H-noswallow", "map_err sites", n, 4)
-    R.analysed["map_err_sites"] = dict(cats)
+    import r_pe3
+    r_pe3.h_noswallow_maps(F, R)
     # errors are consumed only by `?`, the blocking wrappers and poll's substitutions: no `.ok()`, `unwrap_or*`, `if let Ok`
     bad = 0
     from r_io import decode_roots
